@@ -223,6 +223,46 @@ func checkLex(v *lexVec) *disagreement {
 		}
 		return mk("dsc", "DSC comments differ", strings.Join(ws, " "), fmt.Sprintf("%q", intp.DSC))
 	}
+	// the comments are collected in order over everything one interpreter is given: the same text
+	// handed over in several calls (cut after line feeds), followed by a call without comments
+	if len(v.Dsc) > 0 {
+		whole := append(append([]byte("{\n"), text...), "\n}"...)
+		var parts [][]byte
+		start := 0
+		for i, c := range whole {
+			// (not in front of a continuation line: "%%+" belongs to the comment before it)
+			if c == '\n' && i+1 < len(whole) && !bytes.HasPrefix(whole[i+1:], []byte("%%+")) {
+				parts = append(parts, whole[start:i+1])
+				start = i + 1
+			}
+		}
+		parts = append(parts, whole[start:], []byte(" 1 pop "))
+		in2 := ps.NewInterpreter()
+		in2.MaxOps = 100000
+		var err2 error
+		func() {
+			defer func() { pan = recover() }()
+			for _, part := range parts {
+				if err2 = in2.Execute(bytes.NewReader(part)); err2 != nil {
+					break
+				}
+			}
+		}()
+		if pan != nil {
+			return mk("panic", fmt.Sprintf("the library panicked: %v", pan), "", fmt.Sprint(pan))
+		}
+		if err2 != nil {
+			return nil // a cut inside a token that spans lines: not a split at a token boundary
+		}
+		same = len(in2.DSC) == len(v.Dsc)
+		for i := 0; same && i < len(v.Dsc); i++ {
+			same = in2.DSC[i].Key == b2s(v.Dsc[i].Key) && in2.DSC[i].Value == b2s(v.Dsc[i].Val)
+		}
+		if !same {
+			return mk("dsc-calls", "DSC comments differ when the text is handed over in several calls", fmt.Sprintf("%d comments, as in one call", len(v.Dsc)),
+				fmt.Sprintf("%v %q", err2, in2.DSC))
+		}
+	}
 	return nil
 }
 
